@@ -57,6 +57,8 @@ type DTLSR struct {
 	purgeTime time.Duration
 	// dataMutex is a RW-mutex which protects change operations to the algorithm's metadata
 	dataMutex sync.RWMutex
+	// sentMutex guards the read-modify-write cycles on a broadcast bundle's list of peers within its BundleItem
+	sentMutex sync.Mutex
 }
 
 func NewDTLSR(c *Core, config DTLSRConfig) *DTLSR {
@@ -215,8 +217,36 @@ func (dtlsr *DTLSR) NotifyNewBundle(bp BundleDescriptor) {
 	}
 }
 
-func (_ *DTLSR) ReportFailure(_ BundleDescriptor, _ cla.ConvergenceSender) {
-	// if the transmission failed, that is sad, but there is really nothing to do...
+func (dtlsr *DTLSR) ReportFailure(bp BundleDescriptor, sender cla.ConvergenceSender) {
+	// Peers of a broadcast bundle are marked as served before the transmission. A peer whose transmission failed has
+	// to be removed again, otherwise it will never get this bundle.
+	dtlsr.sentMutex.Lock()
+	defer dtlsr.sentMutex.Unlock()
+
+	bundleItem, err := dtlsr.c.store.QueryId(bp.Id)
+	if err != nil {
+		return
+	}
+
+	sentEids, ok := bundleItem.Properties["routing/dtlsr/sent"].([]bpv7.EndpointID)
+	if !ok {
+		return
+	}
+
+	for i := 0; i < len(sentEids); i++ {
+		if sentEids[i] == sender.GetPeerEndpointID() {
+			sentEids = append(sentEids[:i], sentEids[i+1:]...)
+			break
+		}
+	}
+
+	bundleItem.Properties["routing/dtlsr/sent"] = sentEids
+	if err := dtlsr.c.store.Update(bundleItem); err != nil {
+		log.WithFields(log.Fields{
+			"bundle": bp.ID(),
+			"error":  err,
+		}).Warn("Updating BundleItem failed")
+	}
 }
 
 func (dtlsr *DTLSR) SenderForBundle(bp BundleDescriptor) (sender []cla.ConvergenceSender, delete bool) {
